@@ -138,8 +138,18 @@ func (m *Manager) notReconnecting() {
 	m.stateMu.Unlock()
 }
 
-func (m *Manager) reconnect(recursed bool) {
+// closeGen is the value of `closeGeneration` at the time the reconnection was started. `Close` stops the reconnection
+// with `skipReconnect`, but an `Open` or `Socket.Connect` that follows clears that flag again, possibly before this
+// goroutine has looked at it: a reconnection that was started before a `Close` must stop for good, whatever happened since.
+func (m *Manager) reconnect(recursed bool, closeGen uint64) {
 	m.debug.Log("`reconnect` called")
+
+	stopped := func() bool {
+		m.skipReconnectMu.RLock()
+		skipReconnect := m.skipReconnect
+		m.skipReconnectMu.RUnlock()
+		return skipReconnect || m.closeGeneration() != closeGen
+	}
 
 	// recursed = Is this the first time we're running the reconnect method?
 	// In other words: are we recursing?
@@ -147,13 +157,10 @@ func (m *Manager) reconnect(recursed bool) {
 		m.connectMu.Lock()
 		defer m.connectMu.Unlock()
 
-		m.skipReconnectMu.RLock()
-		if m.skipReconnect {
-			m.skipReconnectMu.RUnlock()
+		if stopped() {
 			m.debug.Log("Skipping reconnect")
 			return
 		}
-		m.skipReconnectMu.RUnlock()
 	}
 
 	// If the state is 'connected', 'connecting', or 'reconnecting', etc; don't try to connect.
@@ -187,26 +194,20 @@ func (m *Manager) reconnect(recursed bool) {
 	m.debug.Log("Delay before reconnect attempt", delay)
 	time.Sleep(delay)
 
-	m.skipReconnectMu.RLock()
-	if m.skipReconnect {
-		m.skipReconnectMu.RUnlock()
+	if stopped() {
 		m.debug.Log("Skipping reconnect")
 		m.notReconnecting()
 		return
 	}
-	m.skipReconnectMu.RUnlock()
 
 	attempts = m.backoff.attempts()
 	m.reconnectAttemptHandlers.forEach(func(handler *ManagerReconnectAttemptFunc) { (*handler)(attempts) }, true)
 
-	m.skipReconnectMu.RLock()
-	if m.skipReconnect {
-		m.skipReconnectMu.RUnlock()
+	if stopped() {
 		m.debug.Log("Skipping reconnect")
 		m.notReconnecting()
 		return
 	}
-	m.skipReconnectMu.RUnlock()
 
 	m.debug.Log("Attempting to reconnect")
 	err := m.connect(true, 0)
@@ -216,7 +217,7 @@ func (m *Manager) reconnect(recursed bool) {
 		m.state = clientConnStateDisconnected
 		m.stateMu.Unlock()
 		m.reconnectErrorHandlers.forEach(func(handler *ManagerReconnectErrorFunc) { (*handler)(err) }, true)
-		m.reconnect(true)
+		m.reconnect(true, closeGen)
 		return
 	}
 	m.debug.Log("Reconnected")
